@@ -78,7 +78,7 @@ Print Assumptions C14_current_rebuilt.
 
 (* Non-vacuity: a hierarchical machine (compound with guarded local and internal
    transitions, parallel state, final child with on_final, three models) and a flat one
-   satisfy the envelope; a nine-step script is inside it and changes the markup. *)
+   satisfy the envelope; a ten-step script is inside it and changes the markup. *)
 Example C14_envelope_inhabited :
   wf_machine ex_hsm = true /\ wf_machine ex_flat = true /\ forallb op_in_envelope ex_ops = true
   /\ List.length (k_transitions (to_markup ex_hsm)) = 4.
@@ -103,13 +103,15 @@ Theorem C14_faithful_refuted_auto_name :
 Proof. exact faithful_refuted_auto_name. Qed.
 Print Assumptions C14_faithful_refuted_auto_name.
 
-(* known finding KF-C14-4 *)
-Theorem C14_current_refuted_direct :
-  exists d ops, existsb (fun o => negb (op_in_envelope o)) ops = true
-    /\ map ks_attrs (k_states (snd (getter (run_ops ops (construct true d))))) = [[]]
-    /\ map ks_attrs (k_states (to_markup (mach (run_ops ops (construct true d))))) = [[("on_enter", AList ["late"])]].
-Proof. exact current_refuted_direct. Qed.
-Print Assumptions C14_current_refuted_direct.
+(* D29 (fixed in /repo): the hierarchical on_enter(state, cb) / on_exit(state, cb) helpers are
+   operations of the envelope, covered by C14_current; a concrete instance: *)
+Example C14_current_direct_helper :
+  map ks_attrs (k_states (snd (getter (run_ops [OGet; ODirectState 0 ["A"] "late"]
+        (construct true (to_markup (mkMachine true [st "A" [] []] [] (Some (inl "A")) "" [] [] [] [] [] []
+                                              false false "state" false None false [])))))))
+  = [[("on_enter", AList ["late"])]].
+Proof. exact current_direct_example. Qed.
+Print Assumptions C14_current_direct_helper.
 
 (* documented limits (DESIGN section 9) *)
 Theorem C14_current_refuted_set_list :
